@@ -47,6 +47,8 @@ type Violation struct {
 	Tags      []string   `json:"tags,omitempty"`
 	Known     string     `json:"known,omitempty"` // id of the known finding it is attributed to
 	Sched     bool       `json:"schedule_dependent,omitempty"`
+	// Docs: the documents built by verifrt.Arbitrary, rendered under the witness model
+	Docs map[string]string `json:"docs,omitempty"`
 }
 
 // Trace is a completed path with a model, used for native differential replay.
@@ -54,6 +56,7 @@ type Trace struct {
 	Inputs  []InputVal `json:"inputs"`
 	Observe []string   `json:"observe"`
 	Outcome string     `json:"outcome"` // ok | assert:<label> | panic
+	Docs    map[string]string `json:"docs,omitempty"`
 }
 
 // KnownFinding is an entry of known_findings.json.
@@ -127,6 +130,8 @@ type explorer struct {
 	solverDecided int
 	vars          []*term
 	inputs        []inputRec
+	docs          []*docRec
+	docStrings    int
 	varSeq        map[string]int
 	tags          []tagRec
 	obs           []obsRec
@@ -170,7 +175,12 @@ func (e *explorer) incon(kind string) {
 
 func (e *explorer) newVar(name string, bits int) *term {
 	e.varSeq[name]++
+	// the width is part of the name: the same harness-given name may denote inputs of different
+	// widths in different runs served by one worker (lazily built documents)
 	nm := fmt.Sprintf("%s!%d", sanitize(name), e.varSeq[name])
+	if bits != 8 {
+		nm = fmt.Sprintf("%s_w%d", nm, bits)
+	}
 	t := mkVar("v_"+nm, bits)
 	e.vars = append(e.vars, t)
 	return t
@@ -553,6 +563,7 @@ func (e *explorer) fail(kind, label, site string, bad *term, m map[string]uint64
 		}
 	}
 	v.Inputs = e.inputsUnder(m)
+	v.Docs = e.docsUnder(m)
 	v.Tags = e.tagsUnder(m)
 	v.Decisions = append([]int64(nil), e.prefix[:e.pos]...)
 	e.res.Violations = append(e.res.Violations, v)
@@ -705,6 +716,8 @@ func (w *Worker) runPath(it WorkItem, seed uint64) {
 	e.solverDecided = 0
 	e.vars = nil
 	e.inputs = nil
+	e.docs = nil
+	e.docStrings = 0
 	e.varSeq = map[string]int{}
 	e.tags = nil
 	e.obs = nil
@@ -794,7 +807,7 @@ func (w *Worker) runPath(it WorkItem, seed uint64) {
 
 func (e *explorer) trace(m map[string]uint64) Trace {
 	memo := map[int]uint64{}
-	t := Trace{Inputs: e.inputsUnder(m), Outcome: e.pathOutcome}
+	t := Trace{Inputs: e.inputsUnder(m), Outcome: e.pathOutcome, Docs: e.docsUnder(m)}
 	for _, o := range e.obs {
 		var s string
 		if o.isStr {
